@@ -33,6 +33,9 @@ func DefaultIntrinsics() map[string]Intrinsic {
 		return inAlloc(r, st, c, a, false)
 	}
 	m[rtPkg+"/math.MulUintptr"] = inMulUintptr
+	for k, v := range extraIntrinsics {
+		m[k] = v
+	}
 	return m
 }
 
